@@ -560,3 +560,17 @@ pub fn lookup_noncontiguous_fast_counts() {
         assert!(c <= q && (q as u32) < c as u32 + p.get() as u32, "C03/C10: lookup model returned an interval that does not hold the quantile");
     }
 }
+
+/// C19/C03/C20 (bounded): the default preset's shape (u32 probabilities, 24 bits) with f32 weights,
+/// where the free weight is as wide as the float mantissa: 2 entries, all f32 bit patterns.
+#[cfg_attr(kani, kani::proof)]
+#[cfg_attr(kani, kani::unwind(6))]
+pub fn fast_f32_n2_u32_p24() {
+    const P: usize = 24;
+    let p: [f32; 2] = [any(), any()];
+    if let Ok(m) = ContiguousCategoricalEntropyModel::<u32, Vec<u32>, P>::from_floating_point_probabilities_fast(&p, None) {
+        let (c0, p0) = m.left_cumulative_and_probability(0usize).unwrap();
+        let (c1, p1) = m.left_cumulative_and_probability(1usize).unwrap();
+        assert!(c0 == 0 && p0.get() >= 1 && c1 == p0.get() && p1.get() >= 1 && (c1 as u64) + (p1.get() as u64) == (1u64 << P), "C03: float table at the default preset's widths is not a valid model");
+    }
+}
